@@ -5,7 +5,7 @@ comparisons are exact.  `M : FpModel` is universally quantified (IEEE-754 binary
 from overflow and underflow).  Not covered: overflow, subnormal underflow, NaN.   b = 1/(1−u),  γ_k = k·u/(1−k·u).
 Helper lemmas: LdpcV/Lemmas/RoundLemmas.lean.
 -/
-import LdpcV.Lemmas.RoundLemmas
+import LdpcV.Lemmas.RoundPsk
 namespace LdpcV.C14Round
 open LdpcV LdpcV.ArithF LdpcV.Modulation LdpcV.Round
 
@@ -19,6 +19,43 @@ theorem bpsk_rounded (M : FpModel) (h4 : 4 * M.u < 1) (sigma r : ℝ) :
   obtain ⟨s1, s2, s3⟩ := near_sign M hn
   refine ⟨near_err M hn (by exact_mod_cast h4), s1, ?_⟩
   rw [← not_lt, ← not_lt, s2]
+
+/-- C14: the 8PSK demodulator under rounding (additionally: `exp` and `ln_1p` with relative accuracy e).  With
+D = (|re| + |im|)/σ² (a bound on the eight correlations), each of the three floating-point LLRs is within
+`llrErr M ((b⁸−1)·D) D` of the exact posterior log-ratio (C14.psk8_llr), where
+  c₁ = 3e + u·b,  stepE E K = E + c₁ + u·(K + 1 + E + c₁)   (one rounded max*, inputs within E, magnitudes ≤ K),
+  E₁ = stepE E₀ D,  E₂ = stepE E₁ (D+1),  E₃ = stepE E₂ (D+2),  llrErr = 2·E₃·(1+u) + 2u·(D+3)
+— to first order (24·D + 24)·u + 18·e: an ABSOLUTE error that grows with the size of the correlations, which is why
+a relative tolerance cannot be right for extreme |r|/σ² -/
+theorem psk8_rounded (M : FpModel) (sigma : ℝ) (r : ℝ × ℝ) :
+    let D := dBound sigma r
+    let E0 := ((b M) ^ 8 - 1) * D
+    |(psk8Demod (Sc.rounded M) sigma r).1 - (psk8Demod Sc.real sigma r).1| ≤ llrErr M E0 D ∧
+    |(psk8Demod (Sc.rounded M) sigma r).2.1 - (psk8Demod Sc.real sigma r).2.1| ≤ llrErr M E0 D ∧
+    |(psk8Demod (Sc.rounded M) sigma r).2.2 - (psk8Demod Sc.real sigma r).2.2| ≤ llrErr M E0 D :=
+  psk8_err M sigma r
+
+/-- … in closed form: for u ≤ 1/64 each 8PSK LLR is within 47·(u + e)·(D + 1) of the exact posterior log-ratio -/
+theorem psk8_rounded_linear (M : FpModel) (hu : M.u ≤ 1 / 64) (sigma : ℝ) (r : ℝ × ℝ) :
+    let D := dBound sigma r
+    |(psk8Demod (Sc.rounded M) sigma r).1 - (psk8Demod Sc.real sigma r).1| ≤ 47 * (M.u + M.e) * (D + 1) ∧
+    |(psk8Demod (Sc.rounded M) sigma r).2.1 - (psk8Demod Sc.real sigma r).2.1| ≤ 47 * (M.u + M.e) * (D + 1) ∧
+    |(psk8Demod (Sc.rounded M) sigma r).2.2 - (psk8Demod Sc.real sigma r).2.2| ≤ 47 * (M.u + M.e) * (D + 1) := by
+  intro D
+  obtain ⟨h1, h2, h3⟩ := psk8_err M sigma r
+  have hl := llrErr_linear M hu D (dBound_nonneg sigma r)
+  exact ⟨le_trans h1 hl, le_trans h2 hl, le_trans h3 hl⟩
+
+/-- D is (|re| + |im|)/σ² -/
+theorem dBound_eq (sigma : ℝ) (r : ℝ × ℝ) : dBound sigma r = (|r.1| + |r.2|) / (sigma * sigma) := by
+  unfold dBound symR
+  simp only [Int.cast_one, Nat.cast_one, div_one, abs_mul, abs_div, abs_one]
+  rw [abs_mul_abs_self]
+  ring
+
+/-- non-vacuity: in exact arithmetic the 8PSK error bound is 0 -/
+example (D : ℝ) : llrErr FpModel.exact (((b FpModel.exact) ^ 8 - 1) * D) D = 0 := by
+  unfold llrErr E3 E2 E1 stepE c1 b FpModel.exact; simp
 
 /-- non-vacuity: exact arithmetic is a floating-point model with 4u < 1 -/
 example : 4 * FpModel.exact.u < 1 := by unfold FpModel.exact; norm_num
